@@ -26,6 +26,10 @@ pub struct HostileCase {
     /// another handle on the same open file was used between two muxer calls
     #[serde(default)]
     pub reposition: Option<(u32, u64)>,
+    /// the application alternates the shared offset between two regions of one big file
+    /// (nothing is overwritten): the finished file must be as good as on a plain sink
+    #[serde(default)]
+    pub regions: Option<crate::simdisk::RegionPlan>,
 }
 
 /// The history that no vector of operations can hold: more write_sample calls than the 32-bit
@@ -215,7 +219,7 @@ impl Prop for C17 {
             // keeps every table of the muxer small while the sample counters run past 2^32
             let tc = TrackCfg { kind: Kind::Ttxt, track_type: Kind::Ttxt.natural_track_type(), timescale: 65536, language: "und".into(), width: 0, height: 0, sps: vec![], pps: vec![], aac_profile: 2, freq_index: 3, chan_conf: 2, bitrate: 0 };
             let sc = MuxScenario { cfg: MovieCfg { major: *b"isom", minor: 512, compat: vec![], timescale: 1000 }, ops: vec![Op::AddTrack(tc)], start_pos: 0, io: IoKnobs::plain(), preexisting: 0, fault: None };
-            return HostileCase { sc, fault: None, repeat: (1u64 << 32) + 70_000, reposition: None };
+            return HostileCase { sc, fault: None, repeat: (1u64 << 32) + 70_000, reposition: None, regions: None };
         }
         let mut o = GenOpts::hostile();
         if tier == Tier::Thorough {
@@ -285,7 +289,18 @@ impl Prop for C17 {
         } else {
             None
         };
-        HostileCase { sc, fault, repeat: 0, reposition }
+        let regions = if fault.is_none() && reposition.is_none() && r.chance(1, 12) {
+            let nops = sc.ops.len().max(1) as u64;
+            let mut toggles: Vec<u32> = (0..1 + r.below(4)).map(|_| 1 + r.below(nops) as u32).collect();
+            toggles.sort_unstable();
+            toggles.dedup();
+            let gap = *r.pick(&[4096u64, 1 << 31, 1 << 32, (1 << 32) + (1 << 20), 1 << 33]);
+            let final_api = sc.ops.iter().position(|o| matches!(o, Op::End)).map(|i| i as u32 + 1).unwrap_or(0);
+            Some(crate::simdisk::RegionPlan { toggles, gap, final_api })
+        } else {
+            None
+        };
+        HostileCase { sc, fault, repeat: 0, reposition, regions }
     }
     fn eval(case: &HostileCase, st: &mut Stats) -> Vec<Violation> {
         let prop = "C17";
@@ -302,9 +317,10 @@ impl Prop for C17 {
                 s.plan.push(f);
             }
             s.reposition = case.reposition;
+            s.regions = case.regions.clone();
         }
         let run = run_mux(sc, &sim, None);
-        sim.borrow_mut().reposition = None;
+        sim.borrow_mut().clear_moves();
         // a planned fault that never fired must not fire during the read-back
         sim.borrow_mut().plan.clear();
         {
@@ -346,7 +362,15 @@ impl Prop for C17 {
         st.probe("probe.position_moved_between_calls", moved);
         // after either kind of fault only "no panic" is judged: the muxer cannot know where the
         // bytes it wrote before went
-        let fault_fired = sim.borrow().last_hard.is_some() || moved;
+        // alternating between two regions destroys nothing: the full oracle stays on, unless the
+        // low region grew into the high one (then the application, not the muxer, lost data)
+        let (region_moves, collision) = {
+            let s = sim.borrow();
+            (s.region_moves, s.region_collision)
+        };
+        st.probe("probe.sink_regions_alternated", region_moves >= 2 && !collision);
+        st.add("fault.offset_moved_to_other_region", region_moves);
+        let fault_fired = sim.borrow().last_hard.is_some() || moved || collision;
         st.probe("probe.hard_fault_fired", sim.borrow().last_hard.is_some());
         st.probe("probe.zero_timescale", sc.cfg.timescale == 0 || sc.ops.iter().any(|o| matches!(o, Op::AddTrack(t) if t.timescale == 0)));
         st.probe("probe.short_sps", sc.ops.iter().any(|o| matches!(o, Op::AddTrack(t) if t.kind == Kind::Avc && t.sps.len() < 4)));
@@ -391,20 +415,34 @@ impl Prop for C17 {
             return v;
         }
         if case.fault.is_some() {
-            v.push(HostileCase { sc: case.sc.clone(), fault: None, repeat: 0, reposition: case.reposition });
+            v.push(HostileCase { sc: case.sc.clone(), fault: None, repeat: 0, reposition: case.reposition, regions: case.regions.clone() });
         }
         if case.reposition.is_some() {
-            v.push(HostileCase { sc: case.sc.clone(), fault: case.fault, repeat: 0, reposition: None });
+            v.push(HostileCase { sc: case.sc.clone(), fault: case.fault, repeat: 0, reposition: None, regions: case.regions.clone() });
+        }
+        if let Some(rp) = &case.regions {
+            v.push(HostileCase { sc: case.sc.clone(), fault: case.fault, repeat: 0, reposition: case.reposition, regions: None });
+            for i in 0..rp.toggles.len() {
+                let mut t = rp.clone();
+                t.toggles.remove(i);
+                v.push(HostileCase { sc: case.sc.clone(), fault: case.fault, repeat: 0, reposition: case.reposition, regions: Some(t) });
+            }
         }
         for sc in modea::shrink_mux(&case.sc) {
-            // dropping an operation shifts the later calls: keep the move inside the history
-            let reposition = case.reposition.map(|(a, p)| (a.min(sc.ops.len().max(1) as u32), p));
-            v.push(HostileCase { sc, fault: case.fault, repeat: 0, reposition });
+            // dropping an operation shifts the later calls: keep the moves inside the history
+            let nops = sc.ops.len().max(1) as u32;
+            let reposition = case.reposition.map(|(a, p)| (a.min(nops), p));
+            let regions = case.regions.as_ref().map(|rp| {
+                let mut toggles: Vec<u32> = rp.toggles.iter().map(|a| (*a).min(nops)).collect();
+                toggles.dedup();
+                crate::simdisk::RegionPlan { toggles, gap: rp.gap, final_api: sc.ops.iter().position(|o| matches!(o, Op::End)).map(|i| i as u32 + 1).unwrap_or(0) }
+            });
+            v.push(HostileCase { sc, fault: case.fault, repeat: 0, reposition, regions });
         }
         v
     }
     fn rule() -> String {
-        "seeded hostile muxing histories: the full value range of every public field (timescales incl. 0, empty/long/non-ASCII languages, SPS/PPS of 0..8 and >64 KiB bytes, mismatched track_type/media_conf, 0 or 300 brands, durations 0/u32::MAX, offsets i32::MIN/MAX, samples of 2^24-1/2^24/2^24+1 bytes, track ids 0/n+1/u32::MAX, no tracks), any call order up to write_end, a hard stream fault at a random call in 20% of the cases, the sink's position moved by somebody else between two calls in 6% (only the absence of panics is judged after either), in the thorough tier one history of 2^32 + 70 000 write_sample calls on one track (every call Ok or Err, and the finished file describes exactly the accepted samples), each call under catch_unwind in the overflow-checked and in the wrapping build; when every call succeeded inside the documented domain the C01 read-back, C02 relations and C14 comparisons are applied; distinct_nontrivial = distinct (API call, error message) pairs plus distinct outcome sequences of the first 24 calls".into()
+        "seeded hostile muxing histories: the full value range of every public field (timescales incl. 0, empty/long/non-ASCII languages, SPS/PPS of 0..8 and >64 KiB bytes, mismatched track_type/media_conf, 0 or 300 brands, durations 0/u32::MAX, offsets i32::MIN/MAX, samples of 2^24-1/2^24/2^24+1 bytes, track ids 0/n+1/u32::MAX, no tracks), any call order up to write_end, a hard stream fault at a random call in 20% of the cases, the sink's position moved by somebody else between two calls in 6% (only the absence of panics is judged after either), the shared offset alternating between a low and a high region of one big file (gap 4 KiB..8 GiB, nothing overwritten: full read-back oracle) in 6%, in the thorough tier one history of 2^32 + 70 000 write_sample calls on one track (every call Ok or Err, and the finished file describes exactly the accepted samples), each call under catch_unwind in the overflow-checked and in the wrapping build; when every call succeeded inside the documented domain the C01 read-back, C02 relations and C14 comparisons are applied; distinct_nontrivial = distinct (API call, error message) pairs plus distinct outcome sequences of the first 24 calls".into()
     }
     fn assumptions() -> Vec<String> {
         vec![
@@ -424,6 +462,6 @@ impl Prop for C17 {
 
 impl C17 {
     fn base_probes() -> Vec<&'static str> {
-        vec!["probe.hard_fault_fired", "probe.position_moved_between_calls", "probe.zero_timescale", "probe.short_sps", "probe.huge_sample", "probe.no_tracks", "probe.mismatched_track_type"]
+        vec!["probe.hard_fault_fired", "probe.position_moved_between_calls", "probe.sink_regions_alternated", "probe.zero_timescale", "probe.short_sps", "probe.huge_sample", "probe.no_tracks", "probe.mismatched_track_type"]
     }
 }
